@@ -58,6 +58,20 @@ class Dev(Device):
         pass
 
 
+class SpanDev(Device):
+    """a device over two terminals: it writes one and only reads the other;
+    the output variable comes first in the attribute order"""
+    out = TerminalVar()
+    inp = TerminalVar()
+
+    def __init__(self, out, inp):
+        self.out = out
+        self.inp = inp
+
+    def program(self):
+        pass
+
+
 class Aero(AerotechBase):
     pass
 
@@ -124,7 +138,8 @@ def gen_case(rng):
         groups[rng.randrange(ng)].append(i)
     groups = [g for g in groups if g]
     return dict(terms=terms, groups=groups,
-                fast=[rng.random() < 0.3 for _ in groups])
+                fast=[rng.random() < 0.3 for _ in groups],
+                span=rng.random() < 0.4)
 
 
 def build(case, ec):
@@ -178,6 +193,18 @@ def check_case(case, res, sess):
                 else:
                     devs.append(Dev(a2, b2))
                 res.count("devices_sharing_a_terminal")
+        # a device that spans two terminals of the group: it writes one
+        # (which is written anyway) and only reads one that nobody writes
+        writers = [i for i in members if case["terms"][i]["rw"]
+                   and case["terms"][i]["osz"] and not case["terms"][i]["aero"]]
+        readers = [i for i in members if not case["terms"][i]["rw"]
+                   and case["terms"][i]["isz"] and case["terms"][i]["osz"]
+                   and not case["terms"][i]["aero"]]
+        if case.get("span") and writers and readers:
+            devs.append(SpanDev(
+                PacketVar(ts[writers[0]], SyncManager.OUT, 0, "B"),
+                PacketVar(ts[readers[0]], SyncManager.IN, 0, "B")))
+            res.count("devices_spanning_a_written_and_a_read_only_terminal")
         total = 16
         try:
             sg = (FastSyncGroup if fast else SyncGroup)(ec, devs)
